@@ -158,7 +158,8 @@ def hover (j : Json) : Json := Id.run do
     else [req]
   let listedTxs := listed.flatMap (fun i => gKept.getD i [])
   let gDup := listed.eraseDups.length != listed.length
-  let gMissing := members.any (fun m => !listed.contains m)
+  let anchorTree := if wsMode then rootTree else reqTree
+  let gMissing := anchorTree.any (fun m => !listed.contains m)
   let gOrphan := wsMode && jhas j "wsres" && !rootTree.contains req
   let mut specOk := true
   let mut known : Array Json := #[]
